@@ -105,6 +105,26 @@ Theorem c03_plain_response_decodes : forall buf tcp id rd qname qt qc edns limit
     end.
 Proof. exact respond_plain_decodes. Qed.
 
+(* End to end from the request: a response of the server model with a question that does not come from query
+   answering, rendered by the byte-level composition, decodes (independent decoder) to the REQUEST's ID, QR = 1,
+   opcode 0, AA = TC = 0, the model's RD, RA = Z = 0, the RCODE, the question's type and class, no records, and an
+   OPT (owner root, class = the configured payload size, TTL 0) exactly when the model's response is an EDNS one. *)
+Theorem c03_plain_response_end_to_end : forall answer verify cfg req w q buf tcp limit rcode len b, wf_cfg cfg -> wf_bytes req ->
+  handle_message answer verify cfg req = Ok (Some w) -> Server.w_question w = Some q -> (rcode < 16)%N ->
+  respond_plain buf tcp (Server.w_id w) (Server.w_rd w) (labels_of (Reader.q_name q)) (Reader.q_type q) (Reader.q_class q)
+                (option_map fst (Server.w_edns w)) limit rcode = Some (len, b) ->
+  exists m, decode_msg (firstn len b) = Some m /\
+    sbe16 req 0 = Some (m_id m) /\ N.testbit (m_flags2 m) 7 = true /\ ((m_flags2 m / 8) mod 16 = 0)%N /\
+    N.testbit (m_flags2 m) 2 = false /\ N.testbit (m_flags2 m) 1 = false /\ N.testbit (m_flags2 m) 0 = Server.w_rd w /\
+    N.testbit (m_flags3 m) 7 = false /\ ((m_flags3 m / 16) mod 8 = 0)%N /\ (m_flags3 m mod 16 = rcode)%N /\
+    (exists d, m_qs m = [d] /\ dq_type d = Reader.q_type q /\ dq_class d = Reader.q_class q) /\
+    m_an m = [] /\ m_ns m = [] /\
+    match Server.w_edns w with
+    | None => m_ar m = []
+    | Some _ => exists d, m_ar m = [d] /\ dr_owner d = [] /\ dr_type d = 41%N /\ dr_class d = c_edns_size cfg /\ dr_ttl d = 0%N
+    end.
+Proof. exact plain_response_end_to_end. Qed.
+
 (* ... and for the ANSWERED responses ([respond_w]: the whole query answering of C05 through the Writer of
    C12): the message starts with the given ID (big-endian) and its third octet has QR = 1, opcode 0 and RD as
    given, whatever query answering does (AA / TC share that octet and are set and cleared on the way; the
@@ -136,3 +156,4 @@ Print Assumptions c03_writer_keeps_question.
 Print Assumptions c03_question_echo_octets.
 Print Assumptions c03_plain_response_decodes.
 Print Assumptions c03_answered_response_header.
+Print Assumptions c03_plain_response_end_to_end.
